@@ -2,7 +2,13 @@ package seq
 
 import (
 	"context"
+	"crypto/ecdsa"
+	"crypto/elliptic"
 	"crypto/sha256"
+	"io"
+
+	"filippo.io/keygen"
+	"golang.org/x/crypto/hkdf"
 	"encoding/json"
 	"errors"
 	"fmt"
@@ -135,7 +141,7 @@ func (w *World) newInstance(idx int, st *Store) *Instance {
 	if err != nil {
 		panic(err)
 	}
-	in := &Instance{w: w, idx: idx, name: "sim.example/log", key: corpus.Key("log"), wkey: wk,
+	in := &Instance{w: w, idx: idx, name: "sim.example/log", key: logKey(), wkey: wk,
 		store: st, cache: w.cachePath(idx), pool: p.PoolSize, period: time.Duration(p.PeriodMs) * time.Millisecond}
 	return in
 }
@@ -885,4 +891,21 @@ func (w *World) cacheParked(in *Instance) bool {
 		}
 	}
 	return false
+}
+
+// logSeed is the secret seed file content; the log key is derived from it the
+// way cmd/sunlight and cmd/recompute-cache do, so that the recompute tool can be
+// pointed at a materialised copy of the simulated storage.
+var logSeed = hash32("verifsim log seed")
+
+func logKey() *ecdsa.PrivateKey {
+	secret := make([]byte, 32)
+	if _, err := io.ReadFull(hkdf.New(sha256.New, logSeed, []byte("sunlight"), []byte("ECDSA P-256 log key")), secret); err != nil {
+		panic(err)
+	}
+	k, err := keygen.ECDSA(elliptic.P256(), secret)
+	if err != nil {
+		panic(err)
+	}
+	return k
 }
